@@ -107,11 +107,17 @@ func raOf(u *world.Universe, o Op) (fb.RA, fb.MAC, netip.Addr) {
 	case 3:
 		ra.Options = append(ra.Options, fb.OptDNSSL(0xffffffff, "a.example.com", "corp.example.net", "lan"))
 	}
-	switch (o.N + 2*o.P) % 4 {
+	switch (o.N + 2*o.P) % 7 {
 	case 1:
-		ra.Options = append(ra.Options, fb.OptRouteInfo(netip.MustParsePrefix("2001:db8:77::/48"), 1, 1800))
+		ra.Options = append(ra.Options, fb.OptRouteInfo(netip.MustParsePrefix("2001:db8:77::/48"), 1, 1800, true))
 	case 2:
 		ra.Options = append(ra.Options, fb.OptRouteInfo(netip.MustParsePrefix("fd00:abcd:0:1::/64"), 3, 0xffffffff))
+	case 3:
+		ra.Options = append(ra.Options, fb.OptRouteInfo(netip.MustParsePrefix("2001:db8:77::9/128"), 0, 600)) // a host route
+	case 4:
+		ra.Options = append(ra.Options, fb.OptRouteInfo(netip.MustParsePrefix("::/0"), 1, 1800)) // default route, no prefix bytes
+	case 5:
+		ra.Options = append(ra.Options, fb.OptRouteInfo(netip.MustParsePrefix("2001:db8:77:1:aa00::/72"), 3, 60))
 	}
 	return ra, rmac, rip
 }
